@@ -30,7 +30,6 @@ let handle line =
     String.concat " " (List.map (fun (o, fill) ->
       (match o with Some x -> string_of_int (int_of_nat x) | None -> "-") ^ "/" ^ string_of_int (int_of_nat fill)) tr)
   | ["parse"; h] -> res_str (fun v -> "ok " ^ hval_str v) (hparse_all (bytes_of_hex h))
-  | ["rparse"; h] -> res_str (fun v -> "ok " ^ hval_str v) (rparse_all (bytes_of_hex h))
   | ["parseseq"; h] -> parse_seq (bytes_of_hex h)
   | _ -> Driver_ext.handle line
 
